@@ -31,6 +31,15 @@ def main():
     except ModuleNotFoundError as e:
         print(f'no check for {prop}: {e}')
         return 2
+    # temporary files of anything started from here (replays included) live
+    # below /verif/scratch and go away with it
+    import atexit
+    import shutil
+    import tempfile
+    tmp = common.scratch_dir('tmp')
+    os.environ['TMPDIR'] = tmp
+    tempfile.tempdir = tmp
+    atexit.register(shutil.rmtree, tmp, True)
     if argv[1] == '--replay':
         with open(argv[2]) as f:
             data = json.load(f)
